@@ -154,6 +154,11 @@ sig_source_stop_filter(const struct video_source_s* source)
     // the filter thread.
     struct video_s* self = containerof(source, struct video_s, source);
     self->filter.is_stopping = 1;
+    // Wait until the filter has flushed what it still holds into the sink's
+    // queue. The source tells the sink to stop right after this; a sink that
+    // stopped first would close storage before the last averaged frames
+    // arrived and leave them in the queue.
+    thread_join(&self->filter.thread);
 }
 
 static void
